@@ -345,7 +345,7 @@ class Generator:
                         if c2 == "endfn":
                             break
                         if c2 in ("sig", "loop", "body-start", "body-end", "loop-start", "loop-end",
-                                  "before", "after", "replace-type", "decl"):
+                                  "before", "after", "replace-type", "decl", "closure"):
                             cur = {"cmd": c2, "arg": a2, "lines": [], "line0": j + 2}
                             sections.append(cur)
                         else:
@@ -762,6 +762,23 @@ class Generator:
                         raise LostAnchor("%s: cannot find `in` of for loop %d" % (file, n))
                     ed.insert(s[q].end, " %s:" % am.group(2), 1)
                 ed.insert(s[lo_].start, "\n" + tagged + "\n", 1)
+            elif cmd == "closure":
+                # R11: the n-th closure of the form `(|x| body)` gets a typed header with a contract;
+                # its body is kept verbatim (wrapped in braces)
+                n = int(sarg.split()[0])
+                cl = []
+                q = blo
+                while q < bhi:
+                    if src.is_p(q, "|") and src.is_p(q - 1, "(") and src.is_id(q + 1) and src.is_p(q + 2, "|"):
+                        cl.append(q)
+                    q += 1
+                if n < 1 or n > len(cl):
+                    raise LostAnchor("%s: %s has %d simple closures, directive names closure %d" % (file, path[-1], len(cl), n))
+                c0 = cl[n - 1]
+                close = src.match[c0 - 1]
+                ed.replace(s[c0].start, s[c0 + 2].end, text.strip() + " {", 1)
+                ed.insert(s[close].start, " }", 1)
+                rules["R11"] = rules.get("R11", 0) + 1
             elif cmd == "body-start":
                 ed.insert(body_text_start, "\n" + tagged + "\n", 1)
             elif cmd == "body-end":
@@ -801,6 +818,9 @@ class Generator:
             for (_kw, lo_, _hi) in loops:
                 ed.insert(s[lo_].end, "\nproof { assert(false); } // VACUITY-PROBE\n", 0)
         g0 = self.out.lineno
+        if "no-decreases" in flags:
+            # termination of this function's loops is NOT verified (reported as an assumption)
+            self.out.emit("#[verifier::exec_allows_no_decreases_clause] // ASSUMED: termination not verified\n", "template", rel, lineno)
         self.emit_chunks(ed.render(), src)
         self.out.emit("\n", "template", rel, lineno)
         g1 = self.out.lineno - 1
